@@ -291,12 +291,12 @@ theorem parse_fmt (t : Int) (h0 : tsMin ≤ t) (h1 : t ≤ tsMax) :
     num2_dec2 (t % 86400 / 3600) (by omega) (by omega), num2_dec2 (t % 86400 % 3600 / 60) (by omega) (by omega),
     num2_dec2 (t % 86400 % 60) (by omega) (by omega)]
   have hf : takeFraction ['Z'] = some ([], ['Z']) := by decide
-  have hzone : parseZone ['Z'] = some 0 := by decide
+  have hzone : parseZone ['Z'] = some none := by decide
   simp only [hf, hzone, assemble]
   have hc : 1 ≤ y ∧ y ≤ 9999 ∧ 1 ≤ m ∧ m ≤ 12 ∧ 1 ≤ d ∧ d ≤ monthLen y m ∧ t % 86400 / 3600 ≤ 23 ∧
       t % 86400 % 3600 / 60 ≤ 59 ∧ t % 86400 % 60 ≤ 59 := by
     refine ⟨hy0, hy1, hm0, hm1, hd0, hd1, ?_, ?_, ?_⟩ <;> omega
-  simp only [hc, and_self, if_true, List.any_nil, Bool.false_and, Bool.false_eq_true, if_false, Option.some.injEq, hrt]
+  simp only [hc, and_self, if_true, List.isEmpty_nil, Option.getD_none, Option.some.injEq, hrt]
   omega
 
 /-- `format_timestamp` raises (`datetime.fromtimestamp`: year out of range) exactly outside 0001…9999 -/
